@@ -31,7 +31,10 @@ LOOK = ["01", "00", "-0", "-1", "+1", "1_0", "1 ", "1e1", "1.0", "10", "12", "~0
         "a/b", "a~b", "%41", "%2F", "𝄞", "null", "true", "0x1", "٣", "1 0", "a b",
         "9007199254740991", "-9007199254740991", "1\n", "0\n", "-7\n", "a\n", "a\t", "\na",
         # a token that starts with U+FEFF (a byte-order mark only at the start of a decoded *text*, never inside a token)
-        "\ufeffa", "\ufeff", "a\ufeff", "\ufffe"]
+        "\ufeffa", "\ufeff", "a\ufeff", "\ufffe",
+        # one character per class of a byte-wise escape decoder: raw C1 controls, the last Latin-1 character, and characters
+        # above U+00FF that a single-byte Windows code page can spell (a decoder that passes through one would mangle them)
+        "\x80", "\x9f", "\xff", "\u20ac", "\u0152", "\u201ca", "1\u20ac"]
 
 
 def tokens(n):
